@@ -16,6 +16,7 @@ package main
 import (
 	"fmt"
 	"math"
+	"os"
 	"reflect"
 	"runtime/debug"
 	"sort"
@@ -31,9 +32,78 @@ import (
 
 func init() {
 	register("C06-interp", func(c *Ctx) error { c06interpStream(c); return nil })
+	// development aid: print the Coq term of the tree of the program in $VERIF_SRC and its outcome
+	register("C06-interp-tree", func(c *Ctx) error {
+		o := c06iEval(os.Getenv("VERIF_SRC"), 5*time.Second)
+		fmt.Printf("(* %s *)\n%s\n%s\n%s\n%s\n", o.Class, o.Tree, o.Nums, o.Strs, o.Obs)
+		return nil
+	})
 }
 
-const c06interpHeader = "From Coq Require Import ZArith NArith String List.\nFrom Ecal Require Import Common.Ast Run.RunC06Interp.\nImport ListNotations.\nOpen Scope string_scope."
+const c06interpHeader = "From Coq Require Import ZArith NArith String List.\nFrom Ecal Require Import Common.Ast gen.Tokens Run.RunC06Interp.\nImport ListNotations.\nOpen Scope string_scope."
+
+
+// ------------------------------------------------------------------------------- tree emission
+
+// c06iNodeConst maps a node name to the constant of gen/Tokens.v (regenerated from /repo) that
+// holds it: elaborating a constant is far cheaper for coqc than a string literal.  The term is
+// the same [node] CoqNode writes.
+var c06iNodeConst = map[string]string{
+	parser.NodeAND: "NodeAND", parser.NodeAS: "NodeAS", parser.NodeASSIGN: "NodeASSIGN", parser.NodeBREAK: "NodeBREAK",
+	parser.NodeCOMPACCESS: "NodeCOMPACCESS", parser.NodeCONTINUE: "NodeCONTINUE", parser.NodeDIV: "NodeDIV",
+	parser.NodeDIVINT: "NodeDIVINT", parser.NodeEQ: "NodeEQ", parser.NodeEXCEPT: "NodeEXCEPT", parser.NodeFALSE: "NodeFALSE",
+	parser.NodeFINALLY: "NodeFINALLY", parser.NodeFUNC: "NodeFUNC", parser.NodeFUNCCALL: "NodeFUNCCALL", parser.NodeGEQ: "NodeGEQ",
+	parser.NodeGT: "NodeGT", parser.NodeGUARD: "NodeGUARD", parser.NodeHASPREFIX: "NodeHASPREFIX", parser.NodeHASSUFFIX: "NodeHASSUFFIX",
+	parser.NodeIDENTIFIER: "NodeIDENTIFIER", parser.NodeIF: "NodeIF", parser.NodeIN: "NodeIN", parser.NodeKVP: "NodeKVP",
+	parser.NodeLEQ: "NodeLEQ", parser.NodeLET: "NodeLET", parser.NodeLIKE: "NodeLIKE", parser.NodeLIST: "NodeLIST",
+	parser.NodeLOOP: "NodeLOOP", parser.NodeLT: "NodeLT", parser.NodeMAP: "NodeMAP", parser.NodeMINUS: "NodeMINUS",
+	parser.NodeMODINT: "NodeMODINT", parser.NodeMUTEX: "NodeMUTEX", parser.NodeNEQ: "NodeNEQ", parser.NodeNOT: "NodeNOT",
+	parser.NodeNOTIN: "NodeNOTIN", parser.NodeNULL: "NodeNULL", parser.NodeNUMBER: "NodeNUMBER", parser.NodeOR: "NodeOR",
+	parser.NodeOTHERWISE: "NodeOTHERWISE", parser.NodePARAMS: "NodePARAMS", parser.NodePLUS: "NodePLUS", parser.NodePRESET: "NodePRESET",
+	parser.NodeRETURN: "NodeRETURN", parser.NodeSTATEMENTS: "NodeSTATEMENTS", parser.NodeSTRING: "NodeSTRING", parser.NodeTIMES: "NodeTIMES",
+	parser.NodeTRUE: "NodeTRUE", parser.NodeTRY: "NodeTRY",
+}
+
+func c06iNode(sb *strings.Builder, n *parser.ASTNode) {
+	if n == nil {
+		sb.WriteString("(Nd \"<nil>\" [] 0 0 [])")
+		return
+	}
+	flags, val, line := 0, "", 0
+	if n.Token != nil {
+		val, line = n.Token.Val, n.Token.Lline
+		if n.Token.Identifier {
+			flags |= 1
+		}
+		if n.Token.AllowEscapes {
+			flags |= 2
+		}
+	}
+	name, ok := c06iNodeConst[n.Name]
+	if !ok {
+		name = coqStr(n.Name)
+	}
+	fmt.Fprintf(sb, "(Nd %s %s %d %d ", name, CoqBytes(val), flags, line)
+	if len(n.Children) == 0 {
+		sb.WriteString("[])")
+		return
+	}
+	sb.WriteString("[")
+	for i, c := range n.Children {
+		if i > 0 {
+			sb.WriteString("; ")
+		}
+		c06iNode(sb, c)
+	}
+	sb.WriteString("])")
+}
+
+// c06iTree is CoqNode with the node names written as constants of gen/Tokens.v.
+func c06iTree(n *parser.ASTNode) string {
+	var sb strings.Builder
+	c06iNode(&sb, n)
+	return sb.String()
+}
 
 // ------------------------------------------------------------------------------- canonical values
 
@@ -191,7 +261,7 @@ func c06iEval(src string, timeout time.Duration) c06iOutcome {
 			r.parseErr = err
 			return
 		}
-		r.tree = CoqNode(ast)
+		r.tree = c06iTree(ast)
 		nums, strs := map[string]string{}, map[string]string{}
 		c06iTables(ast, nums, strs)
 		r.nums, r.strs = c06iTable(nums), c06iTable(strs)
@@ -251,12 +321,11 @@ func c06iOne(c *Ctx, family, src string) {
 		}
 		return
 	case "panic":
-		if o.Tree == "" {
-			// a panic inside the parser is C07's subject; report it, there is no tree for the model
-			c.Violate(o.PanicKey, "parsing the program panicked: "+o.PanicMsg, d)
-			c.Count(src, true, d)
-			return
-		}
+		// a panic needs no model: C06_interp_no_panic says the model has none on any input
+		// (a panic inside the parser is C07's subject; it is reported here under its own key)
+		c.Violate(o.PanicKey, "evaluating the program panicked: "+o.PanicMsg, d)
+		c.Count(src, true, d)
+		return
 	}
 	id := c.NewID()
 	c.AddCase(id, fmt.Sprintf("mkICase %d%%N %s %s %s %s", id, o.Tree, o.Nums, o.Strs, o.Obs), d, src, o.Class != "value")
@@ -298,6 +367,11 @@ var c06iCorpus = []string{
 	"a := 1\nif true {\n  let a := 2\n  b := a\n}\n[a, b]",
 	"r := []\nfor i in range(1, 3) {\n  if true {\n    if x == null {\n      x := i\n    }\n    r := add(r, x)\n  }\n}\nr",
 	"r := []\nfor i in range(1, 3) {\n  let y\n  if y == null {\n    y := i\n  }\n  r := add(r, y)\n}\nr",
+	"r := []\nfor i in range(1, 3) {\n  if true {\n    y := x\n    x := i\n    r := add(r, y)\n  }\n}\nr",
+	"r := []\nfor i in range(1, 2) {\n  for j in range(1, 2) {\n    r := add(r, z)\n    z := j\n  }\n}\nr",
+	"r := []\nfor i in range(1, 3) {\n  try {\n    r := add(r, w)\n    w := i\n    raise(\"A\")\n  } except {\n    r := add(r, v)\n    v := i * 10\n  } finally {\n    r := add(r, q)\n    q := i * 100\n  }\n}\nr",
+	"r := []\nfunc f(i) {\n  if true {\n    y := x\n    x := i\n    r := add(r, y)\n  }\n}\nf(1)\nf(2)\nr",
+	"r := []\nc := 0\nfor c < 3 {\n  c := c + 1\n  mutex mm {\n    r := add(r, t)\n    t := c\n  }\n}\nr",
 	"[a, b] := [1, 2]\n[a, b]",
 	"[a, b] := [1]\n",
 	"[a, b] := 5",
@@ -825,7 +899,7 @@ func c06iProgram(c *Ctx) string {
 
 func c06interpStream(c *Ctx) {
 	c.flushShard()
-	c.BeginCases(c06interpHeader, "case", 25)
+	c.BeginCases(c06interpHeader, "case", 50)
 	defer func() {
 		c.flushShard()
 	}()
@@ -842,7 +916,7 @@ func c06interpStream(c *Ctx) {
 		}
 		c06iOne(c, "corpus", src)
 	}
-	n := c.Pick(300, 6000)
+	n := c.Pick(220, 1500)
 	for i := 0; i < n; i++ {
 		if c.Enough() {
 			return
